@@ -1575,6 +1575,11 @@ impl<'i, R: RuleType> ParserState<'i, R> {
     /// ```
     #[inline]
     pub fn stack_peek(self: Box<Self>) -> ParseResult<Box<Self>> {
+        if self.call_tracker.refused && self.stack.is_empty() {
+            // The call limit was hit earlier and the parse is only unwinding towards the
+            // "call limit reached" error; an alternative entered because of it must not panic.
+            return Err(self);
+        }
         let string = self
             .stack
             .peek()
@@ -1608,6 +1613,10 @@ impl<'i, R: RuleType> ParserState<'i, R> {
     /// ```
     #[inline]
     pub fn stack_pop(mut self: Box<Self>) -> ParseResult<Box<Self>> {
+        if self.call_tracker.refused && self.stack.is_empty() {
+            // See `stack_peek`.
+            return Err(self);
+        }
         let string = self
             .stack
             .pop()
